@@ -135,3 +135,25 @@ package gossip
 //@   loop 2 invariant[complete] forall id string :: old(id in s.nodes) && old(expired(s, id, t)) ==> (exists j int :: 0 <= j && j < len(nodeIDs) && nodeIDs[j] == id)
 
 //@ nonnil Metrics.Entries
+
+// ---- deltaEntry / Delta / Digest (C02, C03) ------------------------------------
+
+//@ contract (*clusterState).deltaEntry
+//@   serves C02 C03 C20
+//@   requires[locked] held(clusterState.mu)
+//@   requires[inv] csInv(s)
+//@   requires[known] nodeID in s.nodes
+//@   opt frame true
+//@   let N = s.nodes[nodeID]
+//@   ensures[header] result.ID == nodeID && result.Addr == N.Addr
+//@   ensures[only-suffix] forall j int :: 0 <= j && j < len(result.Entries) ==> result.Entries[j].Key in N.Entries && N.Entries[result.Entries[j].Key] == result.Entries[j] && result.Entries[j].Version > fromVersion
+//@   ensures[covers-suffix] forall k string :: k in N.Entries && N.Entries[k].Version > fromVersion ==> (exists j int :: 0 <= j && j < len(result.Entries) && result.Entries[j].Key == k)
+//@   ensures[distinct] forall i int, j int :: 0 <= i && i < j && j < len(result.Entries) ==> result.Entries[i].Key != result.Entries[j].Key
+//@   ensures[sorted] forall i int, j int :: 0 <= i && i < j && j < len(result.Entries) ==> result.Entries[i].Version < result.Entries[j].Version
+//@   ensures[fresh] cap(result.Entries) == 0 || fresh(result.Entries)
+//@   loop 1 frame deltaEntry.Entries, elems(deltaEntry.Entries)
+//@   loop 1 invariant[header] deltaEntry.ID == nodeID && deltaEntry.Addr == N.Addr
+//@   loop 1 invariant[fresh] cap(deltaEntry.Entries) == 0 || (fresh(deltaEntry.Entries) && loopfresh(deltaEntry.Entries))
+//@   loop 1 invariant[elems] forall j int :: 0 <= j && j < len(deltaEntry.Entries) ==> deltaEntry.Entries[j].Key in seen && deltaEntry.Entries[j].Key in N.Entries && N.Entries[deltaEntry.Entries[j].Key] == deltaEntry.Entries[j] && deltaEntry.Entries[j].Version > fromVersion
+//@   loop 1 invariant[covers] forall k string :: k in seen && k in N.Entries && N.Entries[k].Version > fromVersion ==> (exists j int :: 0 <= j && j < len(deltaEntry.Entries) && deltaEntry.Entries[j].Key == k)
+//@   loop 1 invariant[distinct] forall i int, j int :: 0 <= i && i < j && j < len(deltaEntry.Entries) ==> deltaEntry.Entries[i].Key != deltaEntry.Entries[j].Key
